@@ -112,6 +112,22 @@ var steps = []step{
 	{`WithContext(ctx)`, func(db *gorm.DB, m model) *gorm.DB { return db.WithContext(context.Background()) }},
 	{`Clauses(Locking)`, func(db *gorm.DB, m model) *gorm.DB { return db.Clauses(clause.Locking{Strength: "UPDATE"}) }},
 	{`Distinct()`, func(db *gorm.DB, m model) *gorm.DB { return db.Group("") }},
+	{`Debug()`, func(db *gorm.DB, m model) *gorm.DB { return db.Debug() }},
+	{`Session(&Session{DryRun:true})`, func(db *gorm.DB, m model) *gorm.DB { return db.Session(&gorm.Session{DryRun: true}) }},
+	// a read executed on the chain value, which is then used further (Count, then update; the idiom of
+	// paging code): whatever the read leaves on the statement is not a condition supplied by the chain.
+	// Model(&M{}) keeps the model value free of keys (a Find into structs would make the loaded rows the
+	// model value, and their keys are a condition).
+	{`[Model(&M{}).Count(&n) on this value, then]`, func(db *gorm.DB, m model) *gorm.DB {
+		var n int64
+		db.Model(m.zeroPtr()).Count(&n)
+		return db
+	}},
+	{`[Model(&M{}).Find(&maps) on this value, then]`, func(db *gorm.DB, m model) *gorm.DB {
+		var out []map[string]interface{}
+		db.Model(m.zeroPtr()).Find(&out)
+		return db
+	}},
 }
 
 // effective conditions (positive side)
@@ -232,6 +248,7 @@ func reseed(h *vdb.Handle) {
 }
 
 type opResult struct {
+	stale  error // an error left on the chain value by a read step (the finisher then reports that one)
 	err    error
 	rows   int64
 	events []recdrv.Event
@@ -242,6 +259,7 @@ type opResult struct {
 func runOp(h *vdb.Handle, m model, chain []int, fin finisher, mode int, sessAGU bool, cond, pos int) (opResult, string) {
 	root := h.DB
 	var desc []string
+	var stale error
 	db := root.Session(&gorm.Session{AllowGlobalUpdate: sessAGU})
 	if sessAGU {
 		desc = append(desc, "Session{AllowGlobalUpdate:true}")
@@ -273,6 +291,9 @@ func runOp(h *vdb.Handle, m model, chain []int, fin finisher, mode int, sessAGU 
 		}
 		db = steps[s].f(db, m)
 		desc = append(desc, steps[s].name)
+		if db.Error != nil && stale == nil {
+			stale = db.Error
+		}
 	}
 	if pos >= len(chain) {
 		applyCond()
@@ -280,7 +301,7 @@ func runOp(h *vdb.Handle, m model, chain []int, fin finisher, mode int, sessAGU 
 	desc = append(desc, fin.name)
 	mark := h.Rec.Mark()
 	res := fin.f(db, m)
-	return opResult{err: res.Error, rows: res.RowsAffected, events: h.Rec.Since(mark), dump: vdb.Dump(h.SQL, "plains", "softs", "soft2")},
+	return opResult{stale: stale, err: res.Error, rows: res.RowsAffected, events: h.Rec.Since(mark), dump: vdb.Dump(h.SQL, "plains", "softs", "soft2")},
 		m.name + ": db." + strings.Join(desc, ".")
 }
 
@@ -317,7 +338,13 @@ func run(c *core.Ctx) {
 	r, desc := runOp(E.h, m, chain, fin, mode, false, -1, -1)
 	c.Logf("NEG %s", desc)
 	bad := []string{}
-	if !errors.Is(r.err, gorm.ErrMissingWhereClause) {
+	if r.stale != nil {
+		// the chain value already carried an error: the finisher must report it and do nothing
+		c.Inc("neg_chain_value_with_earlier_error")
+		if r.err == nil {
+			bad = append(bad, fmt.Sprintf("the chain value carried the error %v, the finisher returned nil", r.stale))
+		}
+	} else if !errors.Is(r.err, gorm.ErrMissingWhereClause) {
 		bad = append(bad, fmt.Sprintf("error is %v, want ErrMissingWhereClause", r.err))
 	}
 	if se := stmtEvents(r.events); len(se) > 0 {
@@ -327,7 +354,13 @@ func run(c *core.Ctx) {
 		bad = append(bad, "table contents changed")
 		reseed(E.h)
 	}
-	if r.rows != 0 {
+	hasRead := false
+	for _, st := range chain {
+		if strings.HasPrefix(steps[st].name, "[") {
+			hasRead = true // RowsAffected is then what the read left on the chain value; the statement says nothing about it
+		}
+	}
+	if r.rows != 0 && !hasRead {
 		bad = append(bad, fmt.Sprintf("RowsAffected=%d", r.rows))
 	}
 	if len(bad) > 0 {
@@ -360,7 +393,9 @@ func run(c *core.Ctx) {
 	}
 	pr, pdesc := runOp(E.h, m, chain, fin, mode, false, cond, pos)
 	c.Logf("POS %s", pdesc)
-	if errors.Is(pr.err, gorm.ErrMissingWhereClause) {
+	if pr.stale != nil {
+		c.Inc("pos_chain_value_with_earlier_error")
+	} else if errors.Is(pr.err, gorm.ErrMissingWhereClause) {
 		c.Violation("pos:"+conds[cond].name, map[string]interface{}{"chain": pdesc, "problems": []string{"rejected with ErrMissingWhereClause although a condition was given"}})
 	} else if pr.err == nil {
 		c.Shape("pos", pdesc)
@@ -374,9 +409,9 @@ func run(c *core.Ctx) {
 		reseed(E.h)
 	}
 
-	// (3) AllowGlobalUpdate on (session or config): observed, counted; the statement
-	// promises nothing here except that the guard is what the flag switches off.
-	if c.R.Chance(1, 6) {
+	// (3) AllowGlobalUpdate on (session or config): the guard is what the flag switches off, so the
+	// operation must not be rejected on this ground
+	if c.R.Chance(1, 3) {
 		var ar opResult
 		var adesc string
 		if c.R.Bool() {
@@ -389,8 +424,9 @@ func run(c *core.Ctx) {
 			reseed(E.hCfgAGU)
 		}
 		c.Logf("AGU %s", adesc)
-		if errors.Is(ar.err, gorm.ErrMissingWhereClause) {
+		if errors.Is(ar.err, gorm.ErrMissingWhereClause) && ar.stale == nil {
 			c.Inc("agu_on_still_rejected")
+			c.Violation("agu-on-rejected", map[string]interface{}{"chain": adesc, "problems": []string{"AllowGlobalUpdate is enabled (session or configuration) and the operation was still rejected with ErrMissingWhereClause"}})
 		} else {
 			c.Inc("agu_on_executed")
 		}
@@ -404,13 +440,13 @@ func cases(tier string) int {
 var Engine = &core.Engine{
 	ID:    "C09",
 	Level: "exploration",
-	Rule: "enumeration of every chain of condition-free calls up to length 2 (quick) / 3 (thorough) over 28 call forms x 13 update/delete finishers x {plain, soft-delete, two-soft-delete-column} model x {Model(&M{}), Table(), Model(non-empty slice without keys)}; " +
+	Rule: "enumeration of every chain of condition-free calls up to length 2 (quick) / 3 (thorough) over 32 call forms (incl. Session, WithContext, Debug, a DryRun session, and a Count / Find executed on the chain value before it is used further) x 13 update/delete finishers x {plain, soft-delete, two-soft-delete-column} model x {Model(&M{}), Table(), Model(non-empty slice without keys)}; " +
 		"a case is non-trivial when the guard demonstrably decided it: the negative chain was rejected with ErrMissingWhereClause and zero statement events (shape = literal chain), " +
 		"or the same chain with one effective condition inserted at a random position executed (shape = literal chain incl. condition)",
 	Assumptions: []string{
 		"SQLite behind the recording driver stands for every database: the guard is dialect-independent code in callbacks/helper.go",
 		"a committed or rolled-back empty implicit transaction is allowed; only prepare/exec/query events count as 'executes a statement'",
-		"with AllowGlobalUpdate on, behaviour is only counted (the statement makes no promise there)",
+		"with AllowGlobalUpdate on (configuration, or a session placed first in the chain) the only demand is that the operation is not rejected with ErrMissingWhereClause, wherever Session / WithContext / Debug calls follow",
 	},
 	Cases: cases,
 	Batch: func(tier string) int {
